@@ -81,6 +81,11 @@ CLAIMS = {
         text="A hostile reference sender feeds the real receiver mutated streams ('..', '.', empty, absolute, unclean, backslashed and NUL paths; unordered, duplicated and parent-less entries; children of files and symlinks; hard links to unknown/escaping names incl. special mode bits; symlinks with xattrs and outside targets; unsolicited, late and oversized DATA; early FIN/ERR/marker/EOF) into destinations that already hold symlinks to an outside sentinel tree, in normal, merge and metadata-only mode. The receiver runs chrooted in a throw-away jail; the parent compares an lstat snapshot of everything outside dest (incl. dest's own entry and its parent) bit for bit, and checks that a stream the independent classification calls offending at entry k fails and applies nothing from k on, and that a process crash never happens. Sampled + coverage-guided (thorough), no proof.",
         note="TOCTOU races with a concurrently changing destination are out of scope. A hard link naming an earlier directory/symlink/link member is 'unspecified' (containment only).",
         ref="4 C03"),
+    "C14": dict(
+        technique="rapid-generated symlink-laden (source tree, destination tree, src path, dst path, options) through copy.Copy inside a chrooted sub-process; lstat-only snapshot of the jail; byte provenance through unique file contents",
+        text="Source and destination trees are planted with symlinks of every hostile shape (absolute to a sentinel tree, '..' beyond the root, dangling, to not-yet-existing outside names, loops) and the src/dst arguments are drawn to pass through them; follow-links, wildcards, always-replace and dir-contents are varied. The real Copy runs chrooted; afterwards every entry outside the destination root (sentinel tree and the entire source root) must be bit-identical incl. ctime, nothing may have been created there, and every new or changed regular file under the destination root must carry the unique bytes of a file inside the source root. Sampled, no proof.",
+        note="TOCTOU with concurrent mutation is out of scope; the exact landing place for symlinked arguments is not asserted beyond containment and byte provenance.",
+        ref="4 C14"),
 }
 
 NOT_YET = "check not built yet in this round (planned, see DESIGN.md section 9)"
